@@ -121,6 +121,80 @@ def run(ctx):
 
     prealloc_cap_rule(ctx, [wmo], "C15", floor=5)
 
+    # fixed-size name fields (MODS set names: 20 bytes, NUL padded): the writer copies as many bytes as leave room for the terminator —
+    # field length - 1 — not fewer (a name of exactly that length would come back shorter) and not more (no terminator left)
+    R_fix = ctx.rule("C15.fixed-name-field-holds-field-length-minus-one", "for every `[0u8; N]` buffer a WmoWriter function fills from a name and writes out, the copy bound (loop guard `i < K` or `.min(K)` of the copied length) evaluates to N - 1", floor=1)
+    from .c10 import _ival as _iv15, _NoEval as _NEv15
+    for f in wmo.fn_list:
+        if not f.hir or f.kind == "Closure" or "::writer::" not in f.path or "::tests::" in f.path:
+            continue
+        for l in hirq.find(f.hir["body"], "let"):
+            if l["pat"].get("k") != "bind" or l.get("init") is None or hirq.strip(l["init"]).get("k") != "repeat":
+                continue
+            m_ = re.search(r"\[u8; (\d+)\]", wmo.ty(hirq.strip(l["init"]).get("t")) or "")
+            if not m_:
+                continue
+            N, buf = int(m_.group(1)), l["pat"]["name"]
+            written = any(c_.get("k") == "mcall" and c_["m"] == "write_all" and c_.get("args") and re.search(r"\b%s\b" % re.escape(buf), hirq.render(c_["args"][0])) for c_ in hirq.walk(f.hir["body"]))
+            named = re.search(r"name", buf) or any(re.search(r"\.name\b|name", hirq.render(a_["r"])) for a_ in hirq.walk(f.hir["body"]) if a_.get("k") == "assign" and re.search(r"^%s\[" % re.escape(buf), hirq.render(a_["l"])))
+            if not written or not named or N < 4:
+                continue
+            ctx.saw_fn(f)
+            lets = {x["pat"]["name"]: x["init"] for x in hirq.find(f.hir["body"], "let") if x["pat"].get("k") == "bind" and x.get("init") is not None}
+            leaf = lambda r_, buf=buf, N=N: N if re.fullmatch(r"\(?%s\)?\.len\(\)" % re.escape(buf), r_) else None
+            bounds = []
+            # (a) element-wise copy under `if i < K`
+            for n_ in hirq.find(f.hir["body"], "if"):
+                c_ = hirq.strip(n_["c"])
+                if c_.get("k") == "bin" and c_["op"] in ("<", "<=") and any(a_.get("k") == "assign" and re.search(r"^%s\[" % re.escape(buf), hirq.render(a_["l"])) for a_ in hirq.walk(n_["then"])):
+                    try:
+                        k_ = _iv15(c_["r"], {"__leaf__": leaf}, lets)
+                        bounds.append((k_ if c_["op"] == "<" else k_ + 1, hirq.render(c_)[:40], n_.get("ln")))
+                    except _NEv15:
+                        bounds.append((None, hirq.render(c_)[:40], n_.get("ln")))
+            # (b) slice copy `buf[..len].copy_from_slice(..)` with len = x.min(K)
+            for c_ in hirq.walk(f.hir["body"]):
+                if c_.get("k") == "mcall" and c_["m"] == "copy_from_slice" and re.search(r"\b%s\b" % re.escape(buf), hirq.render(c_["recv"])):
+                    for x in hirq.walk(c_["recv"]):
+                        if x.get("k") == "path" and (x.get("res") or {}).get("local") in lets:
+                            for y in hirq.walk(lets[x["res"]["local"]]):
+                                if y.get("k") == "mcall" and y["m"] == "min" and y.get("args"):
+                                    try:
+                                        bounds.append((_iv15(y["args"][0], {"__leaf__": leaf}, lets), hirq.render(y)[:50], c_.get("ln")))
+                                    except _NEv15:
+                                        bounds.append((None, hirq.render(y)[:50], c_.get("ln")))
+            if not bounds:
+                ctx.bad(R_fix, "%s|%s|copy-bound" % (f.path.split("::")[-1], buf), f.where, "no copy bound recognised for the %d-byte field `%s`" % (N, buf), "shape changed")
+            for k_, what, ln in bounds:
+                if k_ == N - 1:
+                    ctx.ok(R_fix, {"fn": f.path.split("::")[-1], "field": "%s[%d]" % (buf, N), "copies_at_most": k_})
+                else:
+                    ctx.bad(R_fix, "%s|%s|copies-%s" % (f.path.split("::")[-1], buf, k_), "%s:%d" % (f.file, ln or 0), "`%s` lets %s bytes of the name into the %d-byte field; the field holds %d and a terminator" % (what, k_, N, N - 1),
+                            "a name of exactly %d bytes comes back %s after write -> parse" % (N - 1, "one byte shorter" if (k_ or 0) < N - 1 else "without its terminator (run together with what follows)"))
+
+    # version conversions remove flags by clearing the named ones (`flags &= !(A | B)`): an un-negated inline union keeps *only* the named
+    # flags and drops every flag both versions share
+    R_mask = ctx.rule("C15.conversion-masks-clear-the-named-flags-only", "in converter.rs every `<flags> &= E` has E = !(..) (or a named keep-mask: a constant / function), never an inline un-negated union of flag constants", floor=4)
+    for f in wmo.fn_list:
+        if not f.hir or f.kind == "Closure" or "::converter::" not in f.path or "::tests::" in f.path:
+            continue
+        for a_ in hirq.walk(f.hir["body"]):
+            if a_.get("k") != "assignop" or a_.get("op") not in ("&=", "BitAnd", "&") or "flags" not in hirq.render(a_["l"]):
+                continue
+            ctx.saw_fn(f)
+            vals = [hirq.strip(a_["r"])] + [hirq.strip(v) for v in hirq.value_leaves(f.hir["body"], a_["r"]) if v is not None]
+            def inline_union(e):
+                e = hirq.strip(e)
+                return (e.get("k") == "bin" and e["op"] == "|") or (e.get("k") == "path" and str((e.get("res") or {}).get("dk", "")).startswith("AssocConst") and len(vals) > 1)
+            badv = next((v for v in vals if v.get("k") == "bin" and v["op"] == "|"), None)
+            neg = any(v.get("k") == "un" and v.get("op") == "Not" for v in vals) or any(v.get("k") == "mcall" and v["m"] in ("not", "complement") for v in vals)
+            inst = {"fn": f.path.split("::")[-1], "mask": hirq.render(a_["r"])[:60]}
+            if badv is None:
+                ctx.ok(R_mask, inst)
+            else:
+                ctx.bad(R_mask, "%s|keeps-only|%s" % (f.path.split("::")[-1], re.sub(r"\s+", "", hirq.render(badv))[:50]), "%s:%d" % (f.file, a_.get("ln") or 0), "`%s &= %s` keeps only the flags it names" % (hirq.render(a_["l"]), hirq.render(badv)[:60]),
+                        "every flag the two versions share (unlit, two-sided, clamp, ...) is cleared by the conversion and stays lost through write and parse")
+
     # visible-block lists are u16 values ended by the marker the writer emits: the parser stops at exactly that value (evaluated over
     # all 65536 values, with the width and signedness of the local it compares)
     R_term = ctx.rule("C15.list-terminator-is-the-written-marker", "parse_visible_block_lists ends a list at a value v iff v is the marker write_visible_block_lists emits (all 65536 u16 values evaluated at the parser's operand type)", floor=1)
